@@ -900,7 +900,15 @@ func vfCRunOnce(c vfCCase, ctx *vlib.Ctx) *vlib.Failure {
 		time.Sleep(time.Millisecond)
 	}
 	if n := runtime.NumGoroutine(); n > baseline+2 {
-		return vlib.Failf("goroutines-leaked", "%d goroutines after Stop, %d before the case:\n%s", n, baseline, vfKeeperStacks())
+		buf := make([]byte, 1<<19)
+		buf = buf[:runtime.Stack(buf, true)]
+		listed := strings.Count("\n\n"+string(buf), "\n\ngoroutine ")
+		if listed <= baseline+2 {
+			// counted a moment ago, gone in the dump: idle pool workers on their way out
+			ctx.Label("goroutines-exiting-at-deadline")
+		} else {
+			return vlib.Failf("goroutines-leaked", "%d goroutines after Stop (%d in the dump), %d before the case:\n%s", n, listed, baseline, buf)
+		}
 	}
 	ctx.LabelN("callers", len(c.Callers))
 	ctx.LabelN("reader-floods", int(floods))
